@@ -132,12 +132,12 @@ Theorem C04_header_rules_touch_nothing_else :
 Proof. exact mutate_headers_untouched. Qed.
 Print Assumptions C04_header_rules_touch_nothing_else.
 
-(* One attempt of the retry loop, first application: headers = (stripped headers + upstream
+(* One attempt of the retry loop started from state st: headers = (stripped headers + upstream
    credentials) transformed by exactly the header_upstream rules; path/query per the director;
    the request goes to the chosen upstream's host. *)
 Theorem C04_upstream_request_spec :
   forall c e h0 st t,
-  let o := snd (attempt c e h0 true st t) in
+  let o := snd (attempt c e (Some h0) st t) in
   (forall k, hlookup (o_hdr o) k =
              fold_left vop_apply (vops_for (subst_of e h0) (c_up c) k ++ revops_for (subst_of e h0) (c_upre c) k)
                        (hlookup (auth_hdr t (s_hdr st)) k)) /\
@@ -147,16 +147,30 @@ Theorem C04_upstream_request_spec :
 Proof. exact attempt_spec. Qed.
 Print Assumptions C04_upstream_request_spec.
 
-(* ... but on a RETRY the same request object is rewritten again: base path and target query
-   prepended twice, +rules applied twice (known finding F-C04-4). *)
-Theorem C04_retry_rewrite_refuted :
-  exists c q t o1 o2, fst (run_request c q [t; t]) = [o1; o2] /\
-    u_path (o_url o1) = spec_path t (c_without c) (u_path (q_url q)) /\
-    u_path (o_url o2) = bs "/base/base/x"%string /\ u_query (o_url o2) = bs "tq=1&tq=1&a=b"%string /\
-    hlookup (o_hdr o1) (bs "X-A"%string) = Some [bs "lit"%string] /\
-    hlookup (o_hdr o2) (bs "X-A"%string) = Some [bs "lit"%string; bs "lit"%string].
-Proof. exact retry_rewrite_refuted. Qed.
-Print Assumptions C04_retry_rewrite_refuted.
+(* ... and with retries (try_duration set) EVERY attempt - the first and each retry, to whichever
+   upstream t the policy selects - is that rewrite applied exactly ONCE to the request the client
+   sent: base path, `without`, target query, upstream credentials and header rules are never
+   applied on top of a previous attempt's result. *)
+Theorem C04_retry_every_attempt_spec :
+  forall c q ts i t,
+  nth_error ts i = Some t ->
+  exists o, nth_error (fst (run_request c true q ts)) i = Some o /\
+    u_path (o_url o) = spec_path t (c_without c) (u_path (q_url q)) /\
+    u_query (o_url o) = spec_query t (u_query (q_url q)) /\
+    o_urlhost o = t_host t /\
+    (forall k, hlookup (o_hdr o) k =
+               fold_left vop_apply (vops_for (subst_of (env_of q) (live_retriable q)) (c_up c) k ++
+                                    revops_for (subst_of (env_of q) (live_retriable q)) (c_upre c) k)
+                         (hlookup (auth_hdr t (create_upstream_headers (q_remote q) (q_hdr q))) k)).
+Proof. exact retry_every_attempt_spec. Qed.
+Print Assumptions C04_retry_every_attempt_spec.
+
+(* the witness of the former finding F-C04-4: attempt 2 goes to /base/x?tq=1&a=b with ONE X-A value *)
+Example C04_retry_every_attempt_nonvacuous :
+  exists o1 o2, fst (run_request wit_c true wit_q [wit_t; wit_t]) = [o1; o2] /\
+    u_path (o_url o2) = bs "/base/x"%string /\ u_query (o_url o2) = bs "tq=1&a=b"%string /\
+    hlookup (o_hdr o2) (bs "X-A"%string) = Some [bs "lit"%string] /\ o2 = o1.
+Proof. exact retry_rewrite_once. Qed.
 
 (* ... and when no hop-by-hop header was removed the header map is NOT copied, so placeholders
    read what the proxy itself wrote (known finding F-C04-5): the same rule yields different values
@@ -164,7 +178,7 @@ Print Assumptions C04_retry_rewrite_refuted.
 Theorem C04_placeholder_alias_refuted :
   exists c q q' t o o',
     q_hdr q' = q_hdr q ++ [(K_CONNECTION, [bs "keep-alive"%string])] /\
-    fst (run_request c q [t]) = [o] /\ fst (run_request c q' [t]) = [o'] /\
+    fst (run_request c false q [t]) = [o] /\ fst (run_request c false q' [t]) = [o'] /\
     hlookup (o_hdr o) (bs "X-New"%string) = Some [bs "1.1.1.1, 192.0.2.7"%string] /\
     hlookup (o_hdr o') (bs "X-New"%string) = Some [bs "1.1.1.1"%string].
 Proof. exact placeholder_alias_refuted. Qed.
